@@ -184,7 +184,7 @@ func vc12Leaf(tok string) vc12Term { return vc12Term{q: tok, exempt: vc12LeafExe
 var vc12Values = []string{
 	// words and numbers
 	`b`, `foo_1`, `a-b`, `a.b`, `2024-01-02`, `true`, `null`,
-	`7`, `0`, `-3`, `1.5`, `-0.25`, `5.0`, `1e3`, `2.`, `-0.0`,
+	`7`, `0`, `-3`, `1.5`, `-0.25`, `5.0`, `1e3`, `2.`, `-0.0`, `1e6`,
 	`9007199254740993`, `9223372036854775807`, `99999999999999999999`,
 	`NaN`, `Inf`,
 	// quoted
@@ -202,7 +202,7 @@ var vc12FieldsSmall = []string{`a`, `héé`}
 
 // range bounds
 var vc12Bounds = []string{
-	`*`, `1`, `5`, `-3`, `1.5`, `5.0`, `1e3`, `b`, `"x y"`, `""`, `"a*"`, `"/r/"`, `/r/`, `w*`, `héé`,
+	`*`, `1`, `5`, `-3`, `1.5`, `5.0`, `1e3`, `1e6`, `-0.0`, `b`, `"x y"`, `""`, `"a*"`, `"/r/"`, `/r/`, `w*`, `héé`,
 	`2024-01-02`, `\/p\/`, `9007199254740993`, `9223372036854775807`, `NaN`,
 }
 
@@ -523,6 +523,15 @@ func vc12Diff(a, b any, path string, inRange, lenient bool) (tag, detail string)
 		// an integer-valued float may come back as the int of the same value
 		if f, isF := a.(float64); isF {
 			if i, isI := b.(int); isI && f == math.Trunc(f) && float64(i) == f {
+				// conceded, as long as the change of type is invisible in the encoding and in print
+				ja, _ := json.Marshal(a)
+				jb, _ := json.Marshal(b)
+				if string(ja) != string(jb) {
+					return "integral-float-reencodes-differently-as-int", fmt.Sprintf("%s: float64 %v (JSON %s) became int %v (JSON %s)", path, a, ja, b, jb)
+				}
+				if fmt.Sprint(a) != fmt.Sprint(b) {
+					return "integral-float-prints-differently-as-int", fmt.Sprintf("%s: float64 %v became int %v", path, a, b)
+				}
 				return "", ""
 			}
 		}
@@ -681,9 +690,6 @@ func vc12Check(t vc12Term, withDefault bool, st *vc12Stats, agg *vc12Agg) {
 	if strings.Contains(first, "panicked") {
 		cat = "panic-" + strings.TrimSuffix(cat, "-differs")
 	}
-	if tag != "" {
-		cat += "-after-" + tag
-	}
 	msg := strings.Join(also, "; ")
 	if tag != "" {
 		msg += fmt.Sprintf(" (exempt leaf: %s)", detail)
@@ -793,7 +799,7 @@ func TestVerifStandin_C12(t *testing.T) {
 
 	// phase D: seeded random derivations of depth 3..5 over all atoms
 	n0 = len(jobs)
-	nRandom := 150000
+	nRandom := 100000
 	if tier == "thorough" {
 		nRandom = 2000000
 	}
